@@ -666,7 +666,30 @@ fn sets(rep: &mut Report, seed: u64, scale: u64) {
                         }
                     }
                     _ => {
-                        a.reserve(g.below(60) as usize);
+                        // capacity management through the set's own wrappers: never a panic, never a lost element, and
+                        // `shrink_to(n)` with n above the capacity is a no-op
+                        let cap0 = a.capacity();
+                        match g.below(6) {
+                            0 => a.reserve(g.below(60) as usize),
+                            1 => { if a.try_reserve(g.below(60) as usize).is_err() { problems.push("try_reserve of a small amount failed".into()); } }
+                            2 => a.shrink_to_fit(),
+                            3 => a.shrink_to(cap0 + 1 + g.below(40) as usize),
+                            4 => a.shrink_to(g.below(cap0 as u64 + 1) as usize),
+                            _ => {
+                                // a value computed by `f` that is NOT the probe (interning a normalised form): the set gains
+                                // what `f` returned, filed under its own hash
+                                let fresh = universe + 50_000 + step as u64;
+                                let got = a.get_or_insert_with(&Q(universe + 90_000), |_| Key::new(fresh)).k();
+                                ra.insert(fresh);
+                                if got != fresh || !a.contains(&Q(fresh)) || a.get(&Q(fresh)).map(|x| x.k()) != Some(fresh) {
+                                    problems.push(format!("get_or_insert_with whose closure returns another value ({fresh}): returned {got}, contains = {}", a.contains(&Q(fresh))));
+                                }
+                                if a.insert(Key::new(fresh)) {
+                                    problems.push(format!("value {fresh} stored by get_or_insert_with was inserted a second time"));
+                                }
+                            }
+                        }
+                        if a.capacity() < a.len() { problems.push("capacity < len after a capacity call".into()); }
                     }
                 }
                 if opcode >= 8 {
@@ -704,6 +727,13 @@ fn sets(rep: &mut Report, seed: u64, scale: u64) {
         let an = take_anomalies();
         if problems.iter().any(|p| p.contains("but the table is still allocated")) {
             rep.fail("C03", problems.join("; "), log.join("\n"));
+        }
+        if problems.iter().any(|p| p.starts_with("panic:")) {
+            // a set operation that panics: an undocumented panic (C01), and — the dev build being the only one that
+            // stops there, if a debug assertion did it — a difference between the build profiles (C17); capacity calls: C10
+            for p in ["C01", "C17", "C10", "C05"] {
+                rep.fail(p, problems.join("; "), log.join("\n"));
+            }
         }
         if !problems.is_empty() || !an.is_empty() {
             rep.fail("C13", format!("{} {}", problems.join("; "), an.join("; ")), log.join("\n"));
@@ -2031,7 +2061,40 @@ fn eq_cases<S: std::hash::BuildHasher + Clone>(rep: &mut Report, label: &str, sa
     }
 }
 
+/// a zero-sized value that is not equal to itself (the zero-sized sibling of NaN)
+#[derive(Clone, Copy, Debug)]
+struct Never;
+impl PartialEq for Never {
+    fn eq(&self, _: &Never) -> bool {
+        false
+    }
+}
+
 fn eqs(rep: &mut Report, seed: u64, scale: u64) {
+    // `==` on maps asks the VALUES (V: PartialEq, not necessarily reflexive), whatever their size
+    {
+        let mut problems: Vec<String> = vec![];
+        for n in [0u64, 1, 7, 15, 29, 60] {
+            let mut a: HashMap<u64, Never, VBuild> = HashMap::with_hasher(VBuild::default());
+            let mut f: HashMap<u64, f64, VBuild> = HashMap::with_hasher(VBuild::default());
+            for k in 0..n {
+                a.insert(k, Never);
+                f.insert(k, if k == 0 { f64::NAN } else { 1.0 });
+            }
+            let b = a.clone();
+            let fb = f.clone();
+            rep.evaluations += 1;
+            if (a == b) != (n == 0) || (a == a) != (n == 0) {
+                problems.push(format!("{n} entries whose zero-sized values are never equal: a == clone is {}, a == a is {}", a == b, a == a));
+            }
+            if (f == fb) != (n == 0) {
+                problems.push(format!("{n} entries, one value NaN: f == clone is {}", f == fb));
+            }
+        }
+        if !problems.is_empty() {
+            rep.fail("C14", problems.join("; "), "maps whose values are not equal to themselves (a zero-sized never-equal type; f64 NaN)".into());
+        }
+    }
     let mut g = Rng::new(seed.wrapping_mul(7919) + 5);
     let mut sizes: Vec<u64> = (0..=64).collect();
     sizes.extend([100, 113, 114, 120, 125, 126, 200, 225, 230, 250]);
@@ -2433,7 +2496,114 @@ fn zsh_run<S: std::hash::BuildHasher + Clone + Default>(rep: &mut Report, label:
     }
 }
 
+/// a fully colliding hasher with no state: every comparison is decided by `Eq` alone
+#[derive(Default, Clone)]
+pub struct OneBucket;
+impl std::hash::Hasher for OneBucket {
+    fn write(&mut self, _: &[u8]) {}
+    fn finish(&self) -> u64 {
+        7
+    }
+}
+
+/// Legal but unusual ways of calling: lookups through unsized `Borrow` forms whose probe value occupies zero bytes
+/// (`""`, an empty slice, a slice of zero-sized elements), the two entry calls that are documented to panic on a
+/// handle without a key, and a `drain_filter` dropped part-way under a predicate that remembers what it saw.
+fn unusual_calls(rep: &mut Report, seed: u64) {
+    let mut problems: Vec<String> = vec![];
+    let mut c12: Vec<String> = vec![];
+    let mut c09: Vec<String> = vec![];
+    let r = catch_unwind(AssertUnwindSafe(|| {
+        // String keys, &str probes, everything in one bucket chain
+        type OB = std::hash::BuildHasherDefault<OneBucket>;
+        for n in [1usize, 3, 15, 29, 40] {
+            let mut m: HashMap<String, u64, OB> = HashMap::default();
+            let mut r: BTreeMap<String, u64> = BTreeMap::new();
+            for i in 0..n {
+                m.insert(format!("k{i}"), i as u64);
+                r.insert(format!("k{i}"), i as u64);
+            }
+            for probe in ["", "k0", "k", "zz"] {
+                if m.get(probe) != r.get(probe) || m.contains_key(probe) != r.contains_key(probe) || m.get_key_value(probe).map(|x| x.1) != r.get(probe)
+                    || m.raw_entry().from_key(probe).map(|x| x.1) != r.get(probe) {
+                    problems.push(format!("{n} String keys, lookup of {probe:?} through &str disagrees with the reference"));
+                }
+            }
+            if m.get_mut("").is_some() { problems.push("get_mut(\"\") found something".into()); }
+            if m.remove("") != r.remove("") || m.len() != r.len() { problems.push(format!("{n} String keys: remove(\"\") removed something")); }
+            if let griddle::hash_map::Entry::Occupied(_) = m.entry(String::new()) { problems.push("entry(\"\") is occupied".into()); }
+            // keys that ARE empty / zero-sized-element vectors next to non-empty ones
+            let mut v: HashMap<Vec<()>, u64, OB> = HashMap::default();
+            for i in 0..n.min(12) {
+                v.insert(vec![(); i], i as u64);
+            }
+            for i in 0..14usize {
+                let want = if i < n.min(12) { Some(i as u64) } else { None };
+                if v.get(&vec![(); i][..]).copied() != want {
+                    problems.push(format!("Vec<()> keys: get(&[(); {i}]) = {:?}, expected {want:?}", v.get(&vec![(); i][..])));
+                }
+            }
+            let mut s: HashSet<String, OB> = HashSet::default();
+            for i in 0..n { s.insert(format!("k{i}")); }
+            if s.contains("") || s.get("").is_some() || s.take("").is_some() || s.len() != n { problems.push("HashSet<String>: \"\" found".into()); }
+        }
+        // a handle without a key: `entry(absent).insert(v)` returns one; `replace_key` / `replace_entry` on it are
+        // documented to panic ("created through Entry::insert") — they must panic, and the map must not change
+        for which in 0..2 {
+            let mut m: HashMap<u64, u64, VBuild> = HashMap::with_hasher(VBuild { kind: HKind::Mul, seed });
+            for i in 0..20 { m.insert(i, i); }
+            let res = catch_unwind(AssertUnwindSafe(|| {
+                let o = m.entry(1000).insert(5);
+                if which == 0 { let _ = o.replace_key(); } else { let _ = o.replace_entry(6); }
+            }));
+            if res.is_ok() { c12.push(format!("{} on a handle created through Entry::insert returned instead of panicking", if which == 0 { "replace_key" } else { "replace_entry" })); }
+            if m.len() != 21 || m.get(&1000) != Some(&5) || (0..20).any(|i| m.get(&i) != Some(&i)) || m.keys().filter(|k| **k == 1000).count() != 1 {
+                c12.push("after the documented panic of replace_key / replace_entry the map is not what it was".into());
+            }
+        }
+        // drain_filter over elements WITHOUT drop glue, dropped part-way, predicate with memory
+        for n in [8u64, 15, 29, 30, 57, 100] {
+            for take in [0usize, 1, 2, 5] {
+                let mut m: HashMap<u64, u64, VBuild> = HashMap::with_hasher(VBuild { kind: HKind::Mul, seed: seed + n });
+                for i in 0..n { m.insert(i, 2); }
+                let mut seen: Vec<u64> = vec![];
+                {
+                    let mut df = m.drain_filter(|k, ttl| { seen.push(*k); *ttl -= 1; *k % 3 == 0 });
+                    for _ in 0..take { if df.next().is_none() { break; } }
+                }
+                let mut s2 = seen.clone();
+                s2.sort_unstable();
+                s2.dedup();
+                if s2.len() != seen.len() || seen.len() != n as usize {
+                    c09.push(format!("drain_filter over {n} elements dropped after {take}: predicate ran {} times on {} distinct keys", seen.len(), s2.len()));
+                }
+                if m.iter().any(|(k, ttl)| *k % 3 == 0 || *ttl != 1) || m.len() != (0..n).filter(|k| k % 3 != 0).count() {
+                    c09.push(format!("drain_filter over {n} elements dropped after {take}: survivors were not aged exactly once / a match remains"));
+                }
+                let mut st: HashSet<u64, VBuild> = HashSet::with_hasher(VBuild { kind: HKind::Mul, seed: seed + n });
+                for i in 0..n { st.insert(i); }
+                let mut shown = 0usize;
+                {
+                    let mut df = st.drain_filter(|k| { shown += 1; *k % 3 == 0 });
+                    for _ in 0..take { if df.next().is_none() { break; } }
+                }
+                if shown != n as usize { c09.push(format!("set drain_filter over {n} elements dropped after {take}: predicate was shown {shown} elements")); }
+            }
+        }
+    }));
+    rep.evaluations += 1;
+    if r.is_err() {
+        problems.push(format!("panicked: {}", LAST_PANIC.with(|p| p.borrow().lines().last().unwrap_or("").to_string())));
+    }
+    if !problems.is_empty() {
+        for p in ["C01", "C14"] { rep.fail(p, problems.join("; "), "lookups through unsized Borrow forms with zero-byte probes (one-bucket hasher)".into()); }
+    }
+    if !c12.is_empty() { for p in ["C12", "C05"] { rep.fail(p, c12.join("; "), "entry(absent).insert(v) then replace_key() / replace_entry(v)".into()); } }
+    if !c09.is_empty() { rep.fail("C09", c09.join("; "), "drain_filter on u64 elements (no drop glue), n inserts, predicate |k, ttl| { log; *ttl -= 1; k % 3 == 0 }, take, drop".into()); }
+}
+
 fn zsh(rep: &mut Report, seed: u64, scale: u64) {
+    unusual_calls(rep, seed);
     zsh_run::<ZB>(rep, "BuildHasherDefault (zero-sized)", seed, 600 * scale);
     zsh_run::<griddle::hash_map::DefaultHashBuilder>(rep, "griddle's DefaultHashBuilder", seed, 400 * scale);
 }
@@ -2448,6 +2618,15 @@ where
     T: PartialEq + Clone + std::fmt::Debug + Ord,
     I: Iterator<Item = T>,
 {
+    iter_laws_at(name, mk, exact, &[], problems)
+}
+
+/// `marks`: positions in the sequence where something changes underneath (the seam between the two tables)
+fn iter_laws_at<T, I>(name: &str, mk: &dyn Fn() -> I, exact: bool, marks: &[usize], problems: &mut Vec<String>)
+where
+    T: PartialEq + Clone + std::fmt::Debug + Ord,
+    I: Iterator<Item = T>,
+{
     let seq: Vec<T> = mk().collect();
     let n = seq.len();
     let again: Vec<T> = mk().collect();
@@ -2456,6 +2635,10 @@ where
         return;
     }
     let mut ks: Vec<usize> = vec![0, 1, n / 2, n.saturating_sub(1), n, n + 1];
+    for m in marks {
+        ks.extend([m.saturating_sub(1), *m, m + 1]);
+    }
+    ks.sort_unstable();
     ks.dedup();
     for &k in &ks {
         // advance k times with next()
@@ -2504,7 +2687,15 @@ where
             adv(&mut it);
             if it.min().as_ref() != rest.iter().min() { bad("min()".into()); }
         }
-        for j in [0usize, 1, rest.len() / 2, rest.len().saturating_sub(1), rest.len(), rest.len() + 2] {
+        let mut js: Vec<usize> = vec![0usize, 1, rest.len() / 2, rest.len().saturating_sub(1), rest.len(), rest.len() + 2];
+        for m in marks {
+            if *m >= k {
+                js.extend([(m - k).saturating_sub(1), m - k, m - k + 1]);
+            }
+        }
+        js.sort_unstable();
+        js.dedup();
+        for j in js {
             let mut it = mk();
             adv(&mut it);
             let x = it.nth(j);
@@ -2569,7 +2760,19 @@ fn iters(rep: &mut Report, seed: u64, scale: u64) {
             }
             m
         };
-        let m = mkmap(&mut g, &mut log);
+        let bseed = g.below(1 << 40);
+        // the same map again, as often as wanted (an owning iterator can only be studied on a fresh copy, and a CLONE is
+        // never mid-resize)
+        let build = || -> PM {
+            let mut gg = Rng::new(bseed);
+            mkmap(&mut gg, &mut vec![])
+        };
+        let m = build();
+        {
+            let mut gg = Rng::new(bseed);
+            let _ = mkmap(&mut gg, &mut log);
+        }
+        let n_old = m.verif_state().old.map_or(0, |o| o.0);
         let a: PS = { let mm = mkmap(&mut g, &mut log); let mut s = PS::with_hasher(VBuild { kind: hk, seed: 7 }); for k in mm.keys() { s.insert(*k); } if mm.verif_state().old.is_some() { s.reserve(s.len() + 20); } s };
         let b: PS = { let mm = mkmap(&mut g, &mut log); let mut s = PS::with_hasher(VBuild { kind: hk, seed: 8 }); for k in mm.keys() { s.insert(*k / 2 * 3); } s };
         rep.tuples.insert(format!("split {} {} {} sizes {} {} {}", m.verif_state().old.is_some(), a.verif_state().old.is_some(), b.verif_state().old.is_some(), m.len().min(2), a.len().min(2), b.len().min(2)));
@@ -2581,6 +2784,39 @@ fn iters(rep: &mut Report, seed: u64, scale: u64) {
             iter_laws("HashMap::values", &|| m.values().copied(), true, &mut p8);
             iter_laws("&HashMap into_iter", &|| (&m).into_iter().map(|(k, v)| (*k, *v)), true, &mut p8);
             iter_laws("HashMap::into_iter (of a clone)", &|| m.clone().into_iter(), true, &mut p8);
+            // the map itself, in its phase: the old table is consumed first, so position n_old is the seam
+            iter_laws_at("HashMap::into_iter", &|| build().into_iter(), true, &[n_old], &mut p8);
+            iter_laws_at("HashSet::into_iter", &|| { let mut s = PS::with_hasher(VBuild { kind: hk, seed: 7 }); let b = build(); let split = b.verif_state().old.is_some(); for k in b.keys() { s.insert(*k); } if split { s.reserve(s.len() + 20); } s.into_iter() }, true, &[a.verif_state().old.map_or(0, |o| o.0)], &mut p8);
+            // every way of consuming an owning iterator gives back every table it took
+            for how in 0..7u8 {
+                for owning in 0..2u8 {
+                    alloc::arm();
+                    {
+                        let mut c = build();
+                        let mut sink: PM = PM::with_hasher(VBuild { kind: hk, seed: 1 });
+                        macro_rules! consume {
+                            ($it:expr) => {{
+                                let mut it = $it;
+                                match how {
+                                    0 => it.for_each(drop),
+                                    1 => { let _ = it.count(); }
+                                    2 => { let _ = it.last(); }
+                                    3 => { let _ = it.fold(0u64, |a, (k, _)| a ^ k); }
+                                    4 => sink.extend(it),
+                                    5 => { let _ = it.next(); let _ = it.max(); }
+                                    _ => { let _ = it.nth(n_old); let _: Vec<(u64, u64)> = it.collect(); }
+                                }
+                            }};
+                        }
+                        if owning == 0 { consume!(c.drain()); drop(c); } else { consume!(c.into_iter()); }
+                        drop(sink);
+                    }
+                    let (al, fr) = alloc::disarm();
+                    if al != fr {
+                        p8.push(format!("LEAK: {} consumed by method {how}: {al} tables allocated, {fr} freed", if owning == 0 { "drain()" } else { "into_iter()" }));
+                    }
+                }
+            }
             iter_laws("HashMap::iter().clone()", &|| { let it = m.iter(); let c = it.clone(); drop(it); c.map(|(k, v)| (*k, *v)) }, true, &mut p8);
             iter_laws("HashSet::iter", &|| a.iter().copied(), true, &mut p8);
             iter_laws("HashSet::into_iter (of a clone)", &|| a.clone().into_iter(), true, &mut p8);
@@ -2631,6 +2867,20 @@ fn iters(rep: &mut Report, seed: u64, scale: u64) {
             // consuming / mutable iterators: one pass each through the operations that matter, against the first pass
             {
                 let seq: Vec<(u64, u64)> = m.clone().drain().collect();
+                // (a clone is never mid-resize: also the map itself, rebuilt, with the seam between its tables)
+                let seq2: Vec<(u64, u64)> = build().drain().collect();
+                for j in [0usize, 1, n_old.saturating_sub(1), n_old, n_old + 1, seq2.len()] {
+                    let mut c = build();
+                    let mut d = c.drain();
+                    let x = d.nth(j);
+                    let left = seq2.len().saturating_sub(j + 1);
+                    if x.as_ref() != seq2.get(j) || d.len() != left { p8.push(format!("drain of a map with {n_old} parked elements: nth({j}) of {}", seq2.len())); }
+                    let got: Vec<(u64, u64)> = d.collect();
+                    if got.len() != left || (j + 1 <= seq2.len() && got != seq2[j + 1..]) { p8.push(format!("drain: after nth({j}) {} elements follow, expected {left}", got.len())); }
+                    let mut c = build();
+                    let sk: Vec<(u64, u64)> = c.drain().skip(j).collect();
+                    if sk.len() != seq2.len().saturating_sub(j) { p8.push(format!("drain().skip({j}) yields {}", sk.len())); }
+                }
                 for j in [0usize, 1, seq.len() / 2, seq.len(), seq.len() + 1] {
                     let mut c = m.clone();
                     let mut d = c.drain();
@@ -2659,6 +2909,7 @@ fn iters(rep: &mut Report, seed: u64, scale: u64) {
             Err(_) => (vec![format!("panicked: {}", LAST_PANIC.with(|p| p.borrow().lines().last().unwrap_or("").to_string()))], vec![]),
         };
         if !p8.is_empty() { rep.fail("C08", p8.join("; "), log.join("\n")); }
+        if p8.iter().any(|p| p.starts_with("LEAK")) { rep.fail("C06", p8.iter().filter(|p| p.starts_with("LEAK")).cloned().collect::<Vec<_>>().join("; "), log.join("\n")); }
         if !p13.is_empty() { rep.fail("C13", p13.join("; "), log.join("\n")); rep.fail("C08", p13.join("; "), log.join("\n")); }
         if rep.samples.is_empty() { rep.samples.push(log.join(" ; ")); }
     }
